@@ -1,6 +1,7 @@
 //! C17 — results do not depend on the component representation (see DESIGN.md §4 C17).
 mod conv;
 mod graphs;
+mod hue;
 mod lat;
 mod mask;
 mod ops;
@@ -124,6 +125,13 @@ fn replay(c: &mut Collector, rep: &Value) {
             "f64x4" => ops::replay_ops(&ops::types_f64x4(), case, c),
             o => panic!("unknown vector type {o}"),
         },
+        "hues" => match vec {
+            "f32x4" => hue::replay_hues(&hue::types_f32x4(), case, c),
+            "f32x8" => hue::replay_hues(&hue::types_f32x8(), case, c),
+            "f64x2" => hue::replay_hues(&hue::types_f64x2(), case, c),
+            "f64x4" => hue::replay_hues(&hue::types_f64x4(), case, c),
+            o => panic!("unknown vector type {o}"),
+        },
         "f32-vs-f64" => {
             let (a, b) = (g.s32.index(&path[0]).expect("node"), g.s32.index(&path[1]).expect("node"));
             let x = conv::parse_hex3::<f32>(&case["x"]);
@@ -176,6 +184,10 @@ fn real_main() -> i32 {
     ops::run_ops(&ctx, &ops::types_f32x8(), &mut total);
     ops::run_ops(&ctx, &ops::types_f64x2(), &mut total);
     ops::run_ops(&ctx, &ops::types_f64x4(), &mut total);
+    hue::run_hues(&ctx, &hue::types_f32x4(), &mut total);
+    hue::run_hues(&ctx, &hue::types_f32x8(), &mut total);
+    hue::run_hues(&ctx, &hue::types_f64x2(), &mut total);
+    hue::run_hues(&ctx, &hue::types_f64x4(), &mut total);
     ctx.finish(
         total,
         "model_checking",
